@@ -124,11 +124,24 @@ class CursFeatureWriter(BaseFeatureWriter):
 
         return lookup
 
-    def _getAnchors(self, glyphName, entryName, exitName):
+    @staticmethod
+    def _firstAnchorNamed(glyph, anchorName):
+        for anchor in glyph.anchors:
+            if anchor.name == anchorName:
+                return anchor
+        return None
+
+    def _getAnchors(self, glyphName, entryName, exitName, glyph=None):
         entryAnchor = None
         exitAnchor = None
-        entryAnchorXY = self._getAnchor(glyphName, entryName)
-        exitAnchorXY = self._getAnchor(glyphName, exitName)
+        # read the coordinates from the (filtered) glyph being exported, like the
+        # mark feature writer does, not from the source font's glyph of that name
+        entry = exit_ = None
+        if glyph is not None:
+            entry = self._firstAnchorNamed(glyph, entryName)
+            exit_ = self._firstAnchorNamed(glyph, exitName)
+        entryAnchorXY = self._getAnchor(glyphName, entryName, anchor=entry)
+        exitAnchorXY = self._getAnchor(glyphName, exitName, anchor=exit_)
         if entryAnchorXY:
             entryAnchor = ast.Anchor(
                 x=otRoundIgnoringVariable(entryAnchorXY[0]),
@@ -145,7 +158,9 @@ class CursFeatureWriter(BaseFeatureWriter):
         cursiveAnchors = dict()
         statements = []
         for glyph in glyphs:
-            entryAnchor, exitAnchor = self._getAnchors(glyph.name, entryName, exitName)
+            entryAnchor, exitAnchor = self._getAnchors(
+                glyph.name, entryName, exitName, glyph=glyph
+            )
             # A glyph can have only one of the cursive anchors (e.g. if it
             # attaches on one side only)
             if entryAnchor or exitAnchor:
